@@ -43,6 +43,27 @@ def run_z3(smt, timeout_ms, seed, subset=None, strat="auto"):
         return ("error", time.time() - t0, repr(ex))
 
 
+def run_drop(smt, timeout_ms, seed, strat="ematch"):
+    """proof attempt from a pseudo-random subset of the hypotheses (about 12% dropped, deterministic in `seed`).
+    z3's search on these VCs is chaotic: removing a few irrelevant hypotheses often turns a timeout into an instant proof.
+    A proof from a subset of the hypotheses is a proof; `sat`/`unknown` here mean nothing."""
+    import random
+    t0 = time.time()
+    try:
+        z3, ctx, s = _solver(timeout_ms, 0, strat)
+        A = z3.parse_smt2_string(smt, ctx=ctx)
+        n = len(A)
+        rng = random.Random(seed)
+        for i in range(n - 1):
+            if rng.random() >= 0.12:
+                s.add(A[i])
+        s.add(A[n - 1])
+        r = s.check()
+        return ("unsat" if r == z3.unsat else "unknown", time.time() - t0, "")
+    except Exception as ex:
+        return ("error", time.time() - t0, repr(ex))
+
+
 def run_core(smt, timeout_ms, seed):
     """unsat core of the hypotheses (indices into the assertion list; the negated goal is the last assertion)"""
     t0 = time.time()
@@ -129,6 +150,8 @@ def run(job):
     if backend == "core":
         return run_core(smt, timeout_ms, seed)
     strat = job[5] if len(job) > 5 else "auto"
+    if backend == "drop":
+        return run_drop(smt, timeout_ms, seed, strat)
     if backend == "hint":
         return run_z3(smt, timeout_ms, seed, subset=job[4], strat=strat)
     return run_z3(smt, timeout_ms, seed, strat=strat)
